@@ -235,6 +235,19 @@ func isDirBelowRoot(root, dir string) bool {
 	return false
 }
 
+// clearStaleAttributes drops the attributes of the object that is about to
+// be replaced when the metadata store keeps attributes by path (sidecar).
+// They would otherwise be inherited by the new object: user metadata, tags
+// and content headers the new upload does not set, and also the delete
+// marker flag, which made a new version written over a delete marker
+// invisible. With xattrs the new object is a new inode and starts clean.
+func (p *Posix) clearStaleAttributes(bucket, object string) error {
+	if _, ok := p.meta.(meta.SideCar); !ok {
+		return nil
+	}
+	return p.meta.DeleteAttributes(bucket, object)
+}
+
 func (p *Posix) Shutdown() {
 	p.rootfd.Close()
 }
@@ -1573,6 +1586,11 @@ func (p *Posix) CompleteMultipartUpload(ctx context.Context, input *s3.CompleteM
 
 	upiddir := filepath.Join(objdir, uploadID)
 
+	err = p.clearStaleAttributes(bucket, object)
+	if err != nil {
+		return nil, fmt.Errorf("clear stale attributes: %w", err)
+	}
+
 	userMetaData := make(map[string]string)
 	objMeta := p.loadObjectMetaData(bucket, upiddir, nil, userMetaData)
 	err = p.storeObjectMetadata(f.File(), bucket, object, objMeta)
@@ -2910,6 +2928,11 @@ func (p *Posix) PutObject(ctx context.Context, po s3response.PutObjectInput) (s3
 			return s3response.PutObjectOutput{}, err
 		}
 		versionID = nullVersionId
+	}
+
+	err = p.clearStaleAttributes(*po.Bucket, *po.Key)
+	if err != nil {
+		return s3response.PutObjectOutput{}, fmt.Errorf("clear stale attributes: %w", err)
 	}
 
 	for k, v := range po.Metadata {
